@@ -94,7 +94,8 @@ class ElectronicControlUnit:
         :param callback:
             The callback to be removed from the timer event list
         """
-        for event in self._timer_events:
+        # iterate over a copy: removing from the list being iterated skips the entry that follows
+        for event in list(self._timer_events):
             if event['callback'] == callback:
                 self._timer_events.remove( event )
         self._job_thread_wakeup()
